@@ -15,9 +15,10 @@ const (
 	mStore
 	mCopy
 	mMerge
-	mZero  // freshly allocated object/backing store: every cell of base a0 holds the zero value
-	mHavoc // every cell of base a0 holds an unknown value (fresh UF)
-	mFill  // cells [off, off+n) of base a0 hold val
+	mZero   // freshly allocated object/backing store: every cell of base a0 holds the zero value
+	mHavoc  // every cell of base a0 holds an unknown value (fresh UF)
+	mFill   // cells [off, off+n) of base a0 hold val
+	mHavocR // cells [off, off+n) of base a0 hold unknown values (fresh UF)
 	// mAppend: result slice (a0=resBase, a1=resOff) of append(old, src...): when `fits` the n new cells were
 	// written in place behind old (oldBase,oldOff,oldLen); otherwise resBase is fresh storage holding old's
 	// cells followed by the new ones. Reads through the result slice are the same in both cases.
@@ -241,7 +242,7 @@ func (m *memCtx) readC(n *MemNode, a0, a1 *smt.Term, ctx []*smt.Term) *smt.Term 
 		default:
 			r = c.Ite(c.Eq(a0, n.a0), c.App(n.uf, a0, a1), m.readC(n.prev, a0, a1, ctx))
 		}
-	case mFill, mCopy:
+	case mFill, mCopy, mHavocR:
 		sb := m.eqStatus(a0, n.a0)
 		in := triUnknown
 		if d, ok := c.DiffConst(a1, n.a1); ok {
@@ -264,6 +265,9 @@ func (m *memCtx) readC(n *MemNode, a0, a1 *smt.Term, ctx []*smt.Term) *smt.Term 
 		inner := func() *smt.Term {
 			if n.kind == mFill {
 				return n.val
+			}
+			if n.kind == mHavocR {
+				return c.App(n.uf, a0, a1)
 			}
 			return m.readC(n.src, n.s0, c.Add(n.s1, c.Sub(a1, n.a1)), ctx)
 		}
